@@ -42,6 +42,19 @@ UNITS['DataArray_appendDataFrameDimension_all'] = dict(file=DA, locator=r'DataFr
 UNITS['DataArrayHDF5_createDimensionGroup'] = dict(file='backend/hdf5/DataArrayHDF5.cpp', locator=r'H5Group\s+DataArrayHDF5::createDimensionGroup\s*\(',
     cls='DataArrayHDF5', cls_file='backend/hdf5/DataArrayHDF5.hpp', classes=['DataArrayHDF5', 'opt_H5Group', 'H5Group', 'nstring'],
     member_functors={'dimension_group': 'DataArrayHDF5_dimension_group'}, member_calls={'dimensionCount': 'DataArrayHDF5_dimensionCount'})
+def dd_names(ctx, toks):
+    """in deleteDimensions the group queries are the per-name ghosts of c13_delete.h"""
+    for t in toks:
+        if t.k == 'id' and t.t == 'opt_H5Group_hasGroup': t.t = 'dd_hasGroup'
+        elif t.k == 'id' and t.t == 'opt_H5Group_removeGroup': t.t = 'dd_removeGroup'
+    return toks
+UNITS['DataArrayHDF5_deleteDimensions'] = dict(file='backend/hdf5/DataArrayHDF5.cpp', locator=r'bool\s+DataArrayHDF5::deleteDimensions\s*\(',
+    cls='DataArrayHDF5', cls_file='backend/hdf5/DataArrayHDF5.hpp', classes=['DataArrayHDF5', 'opt_H5Group', 'H5Group', 'nstring'], post_rules=[dd_names], bounded_twin=True,
+    member_functors={'dimension_group': 'dd_dimension_group'}, member_calls={'dimensionCount': 'DataArrayHDF5_dimensionCount'},
+    loops={0: '__CPROVER_assigns(i, dim_id, gh_dd_found_j, gh_dd_removed_j, gh_dd_bad_removes)\n'
+              '__CPROVER_loop_invariant(i <= gh_dim_count && gh_dd_bad_removes == 0 && gh_dd_removed_j <= 1 && gh_dd_found_j == ((ghost_j > i && ghost_j <= gh_dim_count) ? 1 : 0) && (!gh_dd_exists_j ==> gh_dd_removed_j == 0) && '
+              '((ghost_j > i && ghost_j <= gh_dim_count && gh_dd_exists_j) ==> gh_dd_removed_j == 1) && ((ghost_j <= i || ghost_j > gh_dim_count) ==> gh_dd_removed_j == 0))\n'
+              '__CPROVER_decreases(i)'})
 UNITS['RangeDimensionHDF5_ticks_set'] = dict(file='backend/hdf5/DimensionHDF5.cpp', locator=r'void\s+RangeDimensionHDF5::ticks\s*\((?=\s*const\s+vector<double>)', cls='RangeDimensionHDF5',
     cls_file='backend/hdf5/DimensionHDF5.hpp', classes=['RangeDimensionHDF5', 'H5GroupT', 'DataSetT', 'NDSize1'], pre_rules=[ticks_backend_types])
 EXTRA = ('bool gh_group_exists; int gh_removed, gh_opened; ndsize_t gh_removed_name, gh_opened_name; bool gh_opened_create;\n''ndsize_t gh_dim_count; int gh_creates; ndsize_t gh_created_index; double gh_created_interval; const double *gh_created_ticks; size_t gh_created_ticks_n;\n'
@@ -50,8 +63,11 @@ EXTRA = ('bool gh_group_exists; int gh_removed, gh_opened; ndsize_t gh_removed_n
 def job(fn, **kw):
     d = dict(name=fn, bodies=[fn], enforce=[fn], replace=[], extra_c=EXTRA, expect_kinds=['postcondition'], timeout=300); d.update(kw); return d
 JOBS = [job('DataArray_appendSetDimension'), job('DataArray_appendDataFrameDimension_col'), job('DataArray_appendDataFrameDimension_all'), job('DataArray_appendSampledDimension'), job('DataArray_appendRangeDimension', replace=['std_is_sorted_n']),
-        job('DataArrayHDF5_createDimensionGroup'), job('SampledDimension_samplingInterval_set'), job('RangeDimension_ticks_set', replace=['std_is_sorted_n']), job('RangeDimensionHDF5_ticks_set')]
-SPEC = dict(contracts=['c13_dims.h'], stubs=[], units=UNITS, jobs=JOBS,
+        job('DataArrayHDF5_createDimensionGroup'), job('SampledDimension_samplingInterval_set'), job('RangeDimension_ticks_set', replace=['std_is_sorted_n']), job('RangeDimensionHDF5_ticks_set'),
+        job('DataArrayHDF5_deleteDimensions', includes=['c13_dims.h', 'c13_delete.h'], loop_contracts=True, expect_kinds=['postcondition', 'loop_invariant_base', 'loop_invariant_step'], extra_c=EXTRA + 'int gh_dd_exists_j, gh_dd_found_j, gh_dd_removed_j, gh_dd_bad_removes;\n'),
+        job('DataArrayHDF5_deleteDimensions', name='DataArrayHDF5_deleteDimensions[bounded]', includes=['c13_dims.h', 'c13_delete.h'], defines=['NIX_NO_LOOP_CONTRACTS', 'C13D_BOUNDED=3'], cbmc_flags=['--unwind', '5', '--unwinding-assertions'],
+            expect_kinds=['postcondition', 'unwind'], extra_c=EXTRA + 'int gh_dd_exists_j, gh_dd_found_j, gh_dd_removed_j, gh_dd_bad_removes;\n', bounded='at most 3 descriptors, loop unwound completely (twin without loop contract)')]
+SPEC = dict(contracts=['c13_dims.h', 'c13_delete.h'], stubs=[], units=UNITS, jobs=JOBS,
             trusted_base=['CBMC 6.11.0 (C front end, --dfcc, SAT back end)', 'vlib/cxx2c.py idiom map',
                           'back end (DataArrayHDF5 / DimensionHDF5) replaced by a ghost record of what it was asked to store; assumed contract of std::is_sorted at ghost_k',
                           'front-end setters label()/unit()/offset() called on the new descriptor are stubs'],
